@@ -73,7 +73,10 @@ fn main() {
         ("timing", "shape") => timing::shape_relation(&args, &mut s),
         ("events", "replay") => events::replay(&args, &mut s),
         ("events", "record") => events::record(&args, &mut s),
+        ("events", "relations") => events::relations(&args, &mut s),
         ("curve", "replay") => curve::replay(&args, &mut s),
+        ("curve", "relations") => curve::relations(&args, &mut s),
+        ("curve", "show") => curve::show(&args, &mut s),
         ("cache", "replay") => curve::cache_replay(&args, &mut s),
         ("reader", "replay") => reader::replay(&args, &mut s),
         ("reader", "relations") => reader::relations(&args, &mut s),
